@@ -113,6 +113,7 @@ type fnEnc struct {
 	inlDepth  int
 	inlPrefix string
 	inlRets   *[]inlRet
+	nonEsc    map[*ssa.Function][]*ssa.Alloc
 }
 
 func (e *fnEnc) fresh(prefix, sort string) string {
@@ -980,6 +981,33 @@ func (e *fnEnc) enterLoop(h *ssa.BasicBlock, li *loopInfo) {
 	if all {
 		e.imprecise = append(e.imprecise, fmt.Sprintf("loop %d havocs every heap (uncontracted callee or unknown frame)", li.ordinal))
 	}
+	// frame for the activation's own variables: a local allocated before the
+	// loop whose address never leaves this function and that no instruction
+	// of the loop stores to keeps its contents, although the field heaps it
+	// lives in are havocked (they are shared with every other object of the
+	// type)
+	for _, al := range e.frozenAllocs(li) {
+		t, ok := e.val[al]
+		if !ok || len(t) == 0 {
+			continue
+		}
+		pt := al.Type().Underlying().(*types.Pointer).Elem()
+		for _, cell := range e.allocCells(t[0].S, pt) {
+			hi := U.heaps[cell[0]]
+			if hi == nil || !(all || li.modHeap[cell[0]]) {
+				continue
+			}
+			nv, ok := e.curHeap[cell[0]]
+			if !ok {
+				continue
+			}
+			for i, p := range li.entries {
+				if i < len(conds) {
+					e.assert(fmt.Sprintf("(=> %s (= (select %s %s) (select %s %s)))", conds[i], nv, cell[1], e.heapTermIn(e.heapOut[p])(hi), cell[1]))
+				}
+			}
+		}
+	}
 	// phis: fresh
 	li.hdrPhis = map[*ssa.Phi]Term{}
 	for _, in := range h.Instrs {
@@ -1050,6 +1078,143 @@ func stripLoc(as []string) []string {
 			a = a[:j]
 		}
 		out[i] = a
+	}
+	return out
+}
+
+// allocCells lists the (heap key, reference) cells that make up an object of
+// type t at ref: scalar fields at ref, fields of embedded structs at their
+// derived references; a non-struct variable is one cell of its deref heap.
+func (e *fnEnc) allocCells(ref string, t types.Type) [][2]string {
+	U := e.U
+	st, ok := types.Unalias(t).Underlying().(*types.Struct)
+	if !ok || U.sortOf(t) == "RV" {
+		return [][2]string{{U.derefHeap(t).Key, ref}}
+	}
+	var out [][2]string
+	for i := 0; i < st.NumFields(); i++ {
+		f := st.Field(i)
+		if isStructT(U, f.Type()) {
+			out = append(out, e.allocCells(U.embRef(ref, t, f), f.Type())...)
+		} else {
+			out = append(out, [2]string{U.heapOfField(t, f).Key, ref})
+		}
+	}
+	return out
+}
+
+// preserveLocals: a callee (or anything else that havocs field heaps by key)
+// cannot reach the activation's own variables whose address never leaves this
+// function: their cells are the same in the post heap as in the pre heap.
+func (e *fnEnc) preserveLocals(pre, post heapState) {
+	for _, al := range e.nonEscapingAllocs() {
+		t, ok := e.val[al]
+		if !ok || len(t) == 0 {
+			continue
+		}
+		pt := al.Type().Underlying().(*types.Pointer).Elem()
+		for _, cell := range e.allocCells(t[0].S, pt) {
+			hi := e.U.heaps[cell[0]]
+			if hi == nil {
+				continue
+			}
+			a, b := e.heapTermIn(pre)(hi), e.heapTermIn(post)(hi)
+			if a == b {
+				continue
+			}
+			e.assert(fmt.Sprintf("(= (select %s %s) (select %s %s))", b, cell[1], a, cell[1]))
+		}
+	}
+}
+
+func (e *fnEnc) nonEscapingAllocs() []*ssa.Alloc {
+	if e.nonEsc == nil {
+		e.nonEsc = map[*ssa.Function][]*ssa.Alloc{}
+	}
+	if r, ok := e.nonEsc[e.fn]; ok {
+		return r
+	}
+	var out []*ssa.Alloc
+	for _, b := range e.fn.Blocks {
+		for _, in := range b.Instrs {
+			al, ok := in.(*ssa.Alloc)
+			if !ok {
+				continue
+			}
+			if _, isArr := al.Type().Underlying().(*types.Pointer).Elem().Underlying().(*types.Array); isArr {
+				continue
+			}
+			if addressStaysLocal(al, nil) {
+				out = append(out, al)
+			}
+		}
+	}
+	e.nonEsc[e.fn] = out
+	return out
+}
+
+// addressStaysLocal: the address (and the addresses of fields) is used only
+// to load, to store to, and to address fields; with inLoop given, additionally
+// no store to it happens in one of those blocks.
+func addressStaysLocal(al *ssa.Alloc, inLoop map[*ssa.BasicBlock]bool) bool {
+	okAll := true
+	seen := map[ssa.Value]bool{}
+	var visit func(v ssa.Value)
+	visit = func(v ssa.Value) {
+		if seen[v] || !okAll {
+			return
+		}
+		seen[v] = true
+		refs := v.Referrers()
+		if refs == nil {
+			okAll = false
+			return
+		}
+		for _, r := range *refs {
+			switch r := r.(type) {
+			case *ssa.FieldAddr:
+				visit(r)
+			case *ssa.UnOp:
+				if r.Op != token.MUL {
+					okAll = false
+				}
+			case *ssa.Store:
+				if r.Val == v {
+					okAll = false // the address itself is stored somewhere
+				} else if inLoop != nil && inLoop[r.Block()] {
+					okAll = false // written inside the loop
+				}
+			case *ssa.DebugRef:
+			default:
+				okAll = false
+			}
+		}
+	}
+	visit(al)
+	return okAll
+}
+
+// frozenAllocs: the Allocs of this function defined outside the loop, whose
+// address is used only for field addressing, loads and stores (never passed,
+// stored or captured), and that no store inside the loop targets.
+func (e *fnEnc) frozenAllocs(li *loopInfo) []*ssa.Alloc {
+	var out []*ssa.Alloc
+	for _, b := range e.fn.Blocks {
+		if li.blocks[b] {
+			continue
+		}
+		for _, in := range b.Instrs {
+			al, ok := in.(*ssa.Alloc)
+			if !ok {
+				continue
+			}
+			if _, isArr := al.Type().Underlying().(*types.Pointer).Elem().Underlying().(*types.Array); isArr {
+				continue
+			}
+			if addressStaysLocal(al, li.blocks) {
+				out = append(out, al)
+			}
+		}
 	}
 	return out
 }
